@@ -12,19 +12,22 @@ META = {
              'consults is covered by the seal; derive_gcm_nonce is injective below 2^64 (wrap-around included) and put_opts uses '
              'pairwise distinct chunk nonces; chunk and metadata AADs are domain separated; for an arbitrary adversarial backend '
              'get / ranged get (incl. first-chunk offset and last-chunk truncation logic of the decryption stream), head and list '
-             'return Ok only with the requested slice / the metadata of a plaintext honestly committed under that very path '
+             'and get_ranges return Ok only with the requested slice(s) / the metadata of a plaintext honestly committed under that very path; '
+             'copy/rename reseal only a document that passed verification in the loop iteration that used it, whatever the cache holds '
              '(compat mode: or the empty result of an unauthenticated legacy document - the documented downgrade window, shown by '
              'a _refuted lemma); stripped or half-stripped seals are rejected; what put_opts writes depends on the plaintext only '
              'through its length and the sealed chunks. Tie: single-site tamper enumeration on the real store over InMemory '
              '(every byte x 8 bit flips, every truncation, extensions, chunk and object swaps, key and generation exchanges, field '
              'edits, stripping, transplants) on get / ranged get / get_ranges / head / three list variants in both modes, with '
-             'the outcome class compared with the model on a stratified sample; independent AES-GCM re-verification of every '
+             'the outcome class compared with the model on a stratified sample; the same tampers against handles with a WARM or STALE '
+             'metadata cache (second handle overwrote the key), with copy and rename judged as read paths of the source (what a fresh '
+             'handle reads at the target), compared with the model of copy_payload; independent AES-GCM re-verification of every '
              'honest seal under the transcribed AAD/nonce; plaintext window scan; nonce set recomputation.'),
     'design_ref': 'DESIGN.md section 4 / C09',
     'note': ('Trusted: Coq kernel; ideal AEAD + nonce-once as premises (AES-GCM itself is not verified; cross-object nonce '
              'uniqueness rests on the CSPRNG); CBOR decoding is abstracted (the decoded document is arbitrary); translator; '
              'harness (mirror of the Metadata serde layout, its own AAD/nonce transcription checked against the real tags). '
-             'get_ranges integrity is modelled and compared, not proved (_partial). Replay of a complete older version of a '
+             'Replay of a complete older version of a '
              'key is outside the property. Compat-mode legacy downgrade is a recorded open finding.'),
     'technique': 'Coq proof (decoder round trip, invariant over the decryption stream, symbolic AEAD) + translator-generated facts + exhaustive single-site tamper enumeration on the implementation with model comparison',
 }
@@ -42,7 +45,9 @@ def run(ck):
                'of whole inner objects, key exchanges, generation re-pointing, structural field edits, all 48 auth-field strip '
                'subsets, seal/tag transplants between documents; reads: full get, ranged gets (bounded/offset/suffix across '
                'chunk boundaries; all (s,e) pairs in thorough), get_ranges, head, list / list_with_offset / list_with_delimiter, '
-               'compat and strict mode; non-trivial = a model-compared case under a real tamper')
+               'compat and strict mode; then every tamper of two keys against a handle with a warm cache and against a handle whose cache '
+               'is stale (key overwritten through another handle): reads, list, copy and rename through that handle, target read '
+               'through a fresh one; non-trivial = a model-compared case under a real tamper')
     ck.translate()
     ck.coq(['Crypto/Props.v'], ['Crypto', 'gen'], model_targets=['Crypto/Run.vo'])
     ck.trust('ideal AEAD (open succeeds only on honestly sealed tuples) and nonce-once are premises of C09_get/head/list_integrity; '
@@ -68,7 +73,8 @@ def run(ck):
             ck.count(summary['evaluations'])
             ck.cov['input_distribution'] = {k: summary[k] for k in (
                 'tampers', 'tamper_classes', 'outcomes', 'object_sizes', 'chunk_sizes', 'plaintext_windows',
-                'distinct_nonces', 'seal_checks', 'model_cases', 'panics', 'older_version_replays_in_listing')}
+                'distinct_nonces', 'seal_checks', 'model_cases', 'panics', 'older_version_replays_in_listing',
+                'cached_handle_setups', 'cached_handle_outcomes')}
             ck.cov['documented_limits_measured'] = summary['limits']
             # ---- direct oracle on the implementation
             for f in summary['failures']:
@@ -92,6 +98,9 @@ def run(ck):
             rc2, out2, _ = vlib.sh('coqc -q -noglob -Q %s Verif C09_honest.v' % vlib.COQ, cwd=mdir, timeout=900)
             ck.ob('honest documents load into the model', rc2 == 0, 'correspondence', out2[-1500:])
             imports = IMPORTS + 'Require Import C09_honest.\n'
+            os.makedirs(ck.work + '/copy', exist_ok=True)
+            if rc2 == 0:
+                vlib.sh('cp -f C09_honest.vo ../copy/', cwd=mdir)
             entries = [r['case'] for r in rows if r['kind'] == 'aad']
             res = ck.eval_cases(IMPORTS, 'hentry * bytes', 'check_aad', entries, label='aad')
             bad = [i for i, r in enumerate(res) if r is not True]
@@ -118,8 +127,26 @@ def run(ck):
                     ck.eval_term(IMPORTS + defs, 'run_case ' + to_coq(model_rows[i]['case']))[-1200:])
             ck.ob('model outcome = implementation outcome on %d sampled (tamper, read) pairs' % len(cases),
                   not bad and cases, 'correspondence', detail)
+            # copy / rename through a handle with a warm or stale cache: what the target reads as
+            copy_rows = [r for r in rows if r['kind'] == 'copy']
+            ccases = [{'t': [r['case'], r['obs']]} for r in copy_rows]
+            res = ck.eval_cases(imports, 'ccase * obs', 'check_copy', ccases, shard=200, timeout=1200, label='copy')
+            bad = [i for i, r in enumerate(res) if r is not True]
+            for r in copy_rows:
+                ck.nontrivial((r['tamper'], r['mode'], r['op'], r['case']['t'][0]))
+            for r in copy_rows[:2]:
+                ck.sample({'tamper': r['tamper'], 'handle': r['mode'], 'op': r['op'], 'strict': r['case']['t'][0], 'observed_class': r['oclass']})
+            detail = ''
+            if bad:
+                i = bad[0]
+                detail = 'tamper: %s (%s, %s)\nobserved: %s\nmodel: %s' % (
+                    copy_rows[i]['tamper'], copy_rows[i]['mode'], copy_rows[i]['op'], json.dumps(copy_rows[i]['obs'])[:600],
+                    ck.eval_term(IMPORTS + defs, 'run_copy ' + to_coq(copy_rows[i]['case']))[-1200:])
+            ck.ob('model copy_source + read of the target = implementation on %d (cached document, backend document) pairs' % len(ccases),
+                  not bad and ccases, 'correspondence', detail)
     # a recorded finding must not hide an obligation that no longer checks
-    if ck.broken() and not any(v['found'] and v['cls'] != 'compat-legacy-downgrade' for v in ck.violations):
+    if (ck.broken() and any(v['found'] for v in ck.violations)
+            and not any(v['found'] and v['cls'] != 'compat-legacy-downgrade' for v in ck.violations)):
         rest = ck.broken()
         ck.violation('broken-obligation', 'obligation(s) no longer check: ' + '; '.join(o['name'] for o in rest)[:600], False,
                      {'broken_obligations': [o['name'] for o in rest],
